@@ -103,6 +103,20 @@ Theorem C13_with_label : forall L n st e,
 Proof. exact with_label_spec. Qed.
 Print Assumptions C13_with_label.
 
+(* Label, every file: with a non-empty label -- ANY label, also one that equals an attribute or object name such as
+   "templates" or "amps" -- every spikes./clusters./templates./channels. file of the output is a table name with
+   ".<label>" inserted before its extension: none is left un-labelled *)
+Theorem C13_label_every : forall o ci r, convert o ci = COk r -> ci_label ci <> "" ->
+  forall n, In n (names (co_npy r) ++ names (co_txt r)) -> labelled n = true ->
+  exists n0, In n0 OUT_TABLE /\ labelled n0 = true /\ Label_Spec (ci_label ci) n0 n.
+Proof. exact label_every_thm. Qed.
+Print Assumptions C13_label_every.
+
+(* the checker applied to OBSERVED file names is that statement, and the model's output passes it for every label *)
+Theorem C13_label_checker : forall L nms, label_names_b L nms = true <-> Label_Names_Spec L nms.
+Proof. exact label_names_b_spec. Qed.
+Print Assumptions C13_label_checker.
+
 (* distinct names: no two output arrays share a name, so a re-labelled name identifies its file *)
 Theorem C13_names_distinct : forall o ci r, convert o ci = COk r -> NoDup (map fst (co_npy r)).
 Proof. exact out_names_nodup. Qed.
@@ -223,7 +237,14 @@ Example C13_ex_label :
   split_ext ".hidden" = (".hidden", "") /\ split_ext "x." = ("x.", "") /\ split_ext "a.b.c" = ("a.b", ".c") /\
   Label_Spec "probe00" "spikes.times.npy" (relabel "probe00" "spikes.times.npy") /\
   label_b "probe00" ["spikes.times.probe00.npy"; "params.py"] = true /\
-  label_b "probe00" ["spikes.times.npy.probe00"] = false /\ label_b "probe00" ["channels.rawInd.npy"] = false.
+  label_b "probe00" ["spikes.times.npy.probe00"] = false /\ label_b "probe00" ["channels.rawInd.npy"] = false /\
+  (* a label equal to an attribute name: the un-labelled spikes.templates.npy "ends with .templates", only the
+     table-based checker refuses it *)
+  relabel "templates" "spikes.templates.npy" = "spikes.templates.templates.npy" /\
+  label_b "templates" ["spikes.templates.npy"] = true /\ label_names_b "templates" ["spikes.templates.npy"] = false /\
+  label_names_b "templates" ["spikes.templates.templates.npy"; "clusters.uuids.templates.csv"; "params.py"] = true /\
+  label_names_b "amps" ["spikes.amps.amps.npy"; "clusters.amps.npy"] = false /\
+  label_names_b "" ["spikes.amps.npy"] = true /\ label_names_b "x" ["spikes.nosuch.x.npy"] = false.
 Proof.
   repeat split; try (vm_compute; reflexivity).
   exists "spikes.times", "npy". repeat split; try discriminate; reflexivity.
